@@ -435,12 +435,22 @@ class World:
 
 
 def apply_step(world: World, step: Any) -> None:
-    """step = ('e', ev) | ('c', ev1, g, ev2)."""
+    """step = ('e', ev) | ('c', ev1, g, ev2, adv_us).
+
+    A compound step injects ev2 after g generations of ev1's consequences (both events
+    reach the loop in overlapping iterations). If ev2 is a timer that is not yet due,
+    ev1 must be an untimed event and the clock is first advanced by adv_us to that
+    timer's deadline (nothing else is scheduled before it): ev1 arrives just as the
+    timer expires. A timer never follows another timer's consequences early.
+    """
     world.activate()
     if step[0] == "e":
         world.fire(_t(step[1]))
         world.loop.run_to_quiescence()
     else:
+        adv = step[4] if len(step) > 4 else 0
+        if adv:
+            world.loop._vt_us += adv
         world.fire(_t(step[1]))
         for _ in range(step[2]):
             if not world.loop._ready:
@@ -557,6 +567,9 @@ def explore(
                 res.terminals += 1
                 w.check_terminal()
                 collect(w, hist)
+                for mk_, mv_ in w.metrics().items():
+                    if mv_ > res.maxima.get(mk_, -1):
+                        res.maxima[mk_] = mv_
                 res.terminal_outcomes.add(w.outcome())
                 return None
             if res.states >= max_states or len(hist) >= max_depth:
@@ -576,28 +589,41 @@ def explore(
             steps: List[Any] = [("e", ev) for ev in menu]
             if dev < level:
                 # probe each first event for the generation count and mid-point menus
+                first_timer = next((e for e in menu if e[0] == "timer"), None)
                 for ev1 in menu:
-                    pw = new_world(hist)
-                    pw.muted = True
-                    pw.activate()
-                    try:
-                        pw.fire(ev1)
-                        g = 0
-                        while True:
-                            mid = pw.enabled()
-                            for ev2 in mid:
-                                if ev2 != ev1:
-                                    steps.append(("c", ev1, g, ev2))
-                            if not pw.loop._ready:
-                                break
-                            pw.loop.run_generation()
-                            g += 1
-                            if g > 200:
-                                break
-                        # the last g (quiescent) equals the sequential order e1;e2 -> drop it
-                        steps = [s for s in steps if not (s[0] == "c" and s[1] == ev1 and s[2] == g)]
-                    finally:
-                        pw.teardown()
+                    advs = [0]
+                    if ev1[0] != "timer" and first_timer is not None and first_timer[1] > 0:
+                        advs.append(first_timer[1])
+                    for adv in advs:
+                        pw = new_world(hist)
+                        pw.muted = True
+                        pw.activate()
+                        found: List[Any] = []
+                        try:
+                            pw.loop._vt_us += adv
+                            pw.fire(ev1)
+                            g = 0
+                            while True:
+                                for ev2 in pw.enabled():
+                                    if ev2 == ev1:
+                                        continue
+                                    if ev2[0] == "timer":
+                                        # only timers due at this very instant may join the iteration
+                                        if ev2[1] != 0:
+                                            continue
+                                    elif adv:
+                                        continue  # the advanced probe only looks for the expiring timer
+                                    found.append(("c", ev1, g, ev2, adv))
+                                if not pw.loop._ready:
+                                    break
+                                pw.loop.run_generation()
+                                g += 1
+                                if g > 200:
+                                    break
+                            # the last g (quiescent) equals the sequential order e1;e2 -> drop it
+                            steps.extend(s_ for s_ in found if s_[2] != g)
+                        finally:
+                            pw.teardown()
             n = len(steps)
             for i, step in enumerate(steps):
                 if i == n - 1 and w_here is not None:
